@@ -1065,12 +1065,12 @@ class Interp:
             fr.ctx.pop()
 
     def ex_AsyncFor(self, st, fr):
-        """`async for` over an asynchronous iterable whose (assumed) contract is a finite materialised sequence: the
-        stub of the producer (e.g. iterate_maybe_async) returns a list / tuple and the loop runs over it like `for`
-        (the same treatment as asynchronous comprehensions, see _comp); anything else is outside the fragment"""
+        """`async for` over a *synchronous* collection (list / tuple / deque ... as handed out by a harness stub standing for an
+        asynchronous iterator that does not suspend - the same reading comprehensions with `async for` clauses get);
+        anything else needs a contract"""
         it = yield from self.ev(st.iter, fr)
-        if not isinstance(it, (list, tuple)):
-            raise EngineError(f"async for over {it!r} at line {st.lineno}: the asynchronous iterable must be given by a stub returning a list")
+        if not isinstance(it, (list, tuple, collections.deque)):
+            raise EngineError(f"async for over {type(it).__name__} at line {st.lineno}: only harness-provided sequences are modelled")
         items = list(it)
         pos = _ListIter(items)
         fr.ctx.append(("for", st.lineno, pos))
